@@ -302,6 +302,9 @@ func concScenarioFn(sc concScenario, perm []int, noCredit ...bool) func() schedS
 				o.Seq = s.LocalSeq
 				if s.Cgf != nil {
 					o.Cgf = fmt.Sprintf("stale=%v missing=%v", s.Cgf.Stale, s.Cgf.Missing)
+					if len(s.Cgf.BadStors) > 0 {
+						fs = append(fs, Finding{"cdr-transfer/file-sent-while-being-rewritten/" + sc.Name, fmt.Sprintf("a file that is not a complete CDR file was uploaded to the billing domain (the transfer read it while another request was rewriting it): %v", s.Cgf.BadStors)})
+					}
 					if len(s.Cgf.Overlaps) > 0 {
 						fs = append(fs, Finding{"cdr-transfer/connection-used-by-two-requests-at-once/" + sc.Name, fmt.Sprintf("the FTP control connection to the billing domain carried two commands at once (its replies are then read by the wrong request): %v", s.Cgf.Overlaps)})
 					}
